@@ -1,7 +1,8 @@
 use crate::domain::Target;
-use anyhow::{Context, Result};
+use anyhow::{Context, Error, Result};
 use async_std::fs;
 use async_std::path::Path;
+use std::io::ErrorKind;
 
 pub async fn clean_target_output_paths(target: &Target) -> Result<()> {
     if let Some(output) = target.output() {
@@ -10,9 +11,15 @@ pub async fn clean_target_output_paths(target: &Target) -> Result<()> {
                 let resource_files =
                     crate::fs::list_files_in_paths(&resource.paths, &resource.extensions).await;
                 for file in resource_files {
-                    fs::remove_file(&file)
-                        .await
-                        .with_context(|| format!("Failed to remove file {}", file.display()))?;
+                    match fs::remove_file(&file).await {
+                        Ok(_) => {}
+                        // Already gone: a file can be listed under two spellings (e.g. through a symlinked path)
+                        Err(e) if e.kind() == ErrorKind::NotFound => {}
+                        Err(e) => {
+                            return Err(Error::new(e)
+                                .context(format!("Failed to remove file {}", file.display())));
+                        }
+                    }
                 }
             } else {
                 for output_path in &resource.paths {
